@@ -165,7 +165,9 @@ class RefServer:
         if kind == "store":
             _, v, k, f, e, d, c, noreply = req
             it = s.live(k)
-            if v == b"set":
+            if v == b"set" and k in getattr(self, "refuse_keys", ()):
+                r = b"NOT_STORED"        # harness switch (off by default): a server that declines to store some items
+            elif v == b"set":
                 s.items[k] = [f, s.abs_exp(e), d, s.next_cas()]
                 r = b"STORED"
             elif v == b"add":
